@@ -826,12 +826,14 @@ func resolverFault(r *rng, n int, certDir string) error {
 	dohKinds := []string{"ok", "status", "empty", "big", "hang_hdr", "hang_mid", "reset_hdr", "reset_mid", "trickle", "trickle_slow", "refuse", "junk"}
 	dnsKinds := []string{"ok", "none", "mismatch_ok", "short_ok", "mismatch_only", "late", "junk", "unreach", "stray_late", "stray_trickle"}
 	for i := 0; i < n; i++ {
-		useDNS := r.coin(40)
+		// every fault of both menus in turn (quick runs cover each several times), queries stay random
+		slot := i % (len(dohKinds) + len(dnsKinds))
+		useDNS := slot >= len(dohKinds)
 		var kind string
 		if useDNS {
-			kind = dnsKinds[r.intn(len(dnsKinds))]
+			kind = dnsKinds[slot-len(dohKinds)]
 		} else {
-			kind = dohKinds[r.intn(len(dohKinds))]
+			kind = dohKinds[slot]
 		}
 		if err := w.setTransport(useDNS, kind == "unreach"); err != nil {
 			return err
@@ -861,7 +863,7 @@ func resolverFault(r *rng, n int, certDir string) error {
 					outcome = "empty"
 				case "big":
 					sc.kind = "ok"
-					sz := []int{65535, 65536, 70000}[r.intn(3)]
+					sz := []int{65535, 65536, 70000}[(i/(len(dohKinds)+len(dnsKinds)))%3]
 					sc.body = append(append([]byte{}, body...), filler(sz-len(body), 7)...)
 					outcome = "big"
 					upTok = hxfill(body, sz-len(body), 7)
